@@ -380,7 +380,7 @@ def walk_tasks(dag, coord_vars, ev=None):
         coords = []
         for d, nbd in enumerate(nb):
             v = coord_vars[d] if d < len(coord_vars) else 0
-            coords.append(v % nbd)  # independent of other ops: v ranges over >= max number of blocks
+            coords.append(v % sx.conc(nbd))  # independent of other ops: v ranges over >= max number of blocks (block count forked by value: keeps the arithmetic linear)
         ev.run_task(an, tuple(coords))
     return ev
 
